@@ -9,6 +9,33 @@ BASE_ASSUMPTIONS = [
 ]
 
 CHECKS = {
+    "C10": {
+        "quick": [
+            {"pkg": "v2", "entries": ["VerifC10Own"], "params": {"N": 2, "KEYS": 3}},
+            {"pkg": "v2", "entries": ["VerifC10Ops"], "params": {"OPS": 3, "N": 2, "MAXIDX": 3}},
+        ],
+        "thorough": [
+            {"pkg": "v2", "entries": ["VerifC10Own"], "params": {"N": 3, "FAMS": 1}},
+            {"pkg": "v2", "entries": ["VerifC10Own"], "params": {"N": 2, "KEYS": 5}},
+            {"pkg": "v2", "entries": ["VerifC10Ops"], "params": {"OPS": 4, "N": 2, "MAXIDX": 3}},
+            {"pkg": "v2", "entries": ["VerifC10Ops"], "params": {"OPS": 5, "N": 1, "MAXIDX": 1, "WRAPS": 1}},
+        ],
+        "covers": ["c10.own", "c10.ops.applied", "c10.ops.rejected"],
+        "outside": "more than OPS operations; indices above MAXIDX; operations on object members and nested paths in the op-sequence leg (own-output leg covers keys a/b, m~n, empty, e-acute); replace/move/copy (outside jd's subset: rejected by the reader)",
+    },
+    "C09": {
+        "quick": [
+            {"pkg": "v2", "entries": ["VerifC09Render"], "params": {"N": 2, "KEYS": 3}},
+            {"pkg": "v2", "entries": ["VerifC09Refuse"], "params": {}},
+        ],
+        "thorough": [
+            {"pkg": "v2", "entries": ["VerifC09Render"], "params": {"N": 3, "FAMS": 1}},
+            {"pkg": "v2", "entries": ["VerifC09Render"], "params": {"N": 2, "KEYS": 5}},
+            {"pkg": "v2", "entries": ["VerifC09Refuse"], "params": {}},
+        ],
+        "covers": ["c09.render", "c09.refuse"],
+        "outside": "keys beyond the alphabet {a/b, m~n, empty, e-acute, k}; arrays longer than N; set-mode diffs (refused); text-level encoding of values (codec axioms)",
+    },
     "C02": {
         "quick": [
             {"pkg": "v2", "entries": ["VerifC02Lib"], "params": {"N": 2}},
@@ -178,7 +205,7 @@ DEFAULT_TECHNIQUE = "bounded symbolic execution of the Go SSA with SMT (z3/cvc5)
 
 _NA_PENDING = "check not built yet in this session (engine exists; harness pending)"
 NOT_APPLICABLE = {
-    "C09": _NA_PENDING, "C10": _NA_PENDING, 
+    
     "C14": _NA_PENDING, "C17": _NA_PENDING, "C18": _NA_PENDING,
     "C16": ("quantifies over the characters of strings as they pass through yaml.v2's scanner/resolver/emitter and encoding/json "
             "(about 10k lines of third-party reflection- and regexp-driven text code); no Go symbolic engine in the image reaches that "
